@@ -13,7 +13,8 @@ EXTENDS LoadScript, MsgPackCorpus, JsonCorpus, XmlCorpus, Json
 CONSTANTS Arch,            \* "msgpack" | "json": which archive's documents are generated
           Mode, MaxOps, Widths, Pads,
           TypedTargets,    \* typed mode: target types explored
-          CorruptBytes     \* typed mode: byte values written over each position of the encoding ({} = no corruption)
+          CorruptBytes,    \* typed mode: byte values written over each position of the encoding ({} = no corruption)
+          NumNeg, NumPos   \* numeric mode (C04): the integer sources -NumNeg..NumPos are enumerated exhaustively
 
 VARIABLES doc,     \* abstract document (root value)
           w,       \* width policy of the independent encoder
@@ -182,19 +183,37 @@ Wrap(v, r) == IF r.k = "leaf" THEN v ELSE IF r.k = "arr" THEN <<"arr", <<v, U(7)
               ELSE IF "ik" \in DOMAIN r THEN <<"map", <<<<U(1), v>>, <<U(2), U(7)>>>>>>
               ELSE <<"map", <<<<S(Ka), v>>, <<S(Kb), U(7)>>>>>>
 
+\* C04: numeric sources: an exhaustive integer range, every type limit +-2, 2^k +- 1, booleans and floating point values
+Pow2Bytes(k) == [i \in 1..8 |-> IF 8 - ((k) \div 8) = i THEN 2 ^ (k % 8) ELSE 0]          \* 2^k as 8-byte magnitude, k < 64
+AddSmall(m, d) == LET RECURSIVE Go(_, _)                                              \* m + d for 0 <= d < 256 (no overflow of 8 bytes assumed)
+                      Go(i, c) == IF i = 0 THEN <<>> ELSE LET x == m[i] + c IN Go(i - 1, x \div 256) \o <<x % 256>>
+                  IN Go(8, d)
+SubSmall(m, d) == Negate(AddSmall(Negate(m), d))                                       \* m - d for m >= d
+NumLimits == UNION { { <<"int", FALSE, Pow2Bytes(k)>>, <<"int", FALSE, AddSmall(Pow2Bytes(k), 1)>>, <<"int", FALSE, AddSmall(Pow2Bytes(k), 2)>>,
+                       <<"int", FALSE, SubSmall(Pow2Bytes(k), 1)>>, <<"int", FALSE, SubSmall(Pow2Bytes(k), 2)>>,
+                       <<"int", TRUE, Pow2Bytes(k)>>, <<"int", TRUE, AddSmall(Pow2Bytes(k), 1)>>, <<"int", TRUE, SubSmall(Pow2Bytes(k), 1)>> }
+                     : k \in {7, 8, 15, 16, 24, 31, 32, 53, 63} }
+             \cup { <<"int", FALSE, <<255, 255, 255, 255, 255, 255, 255, 255>>>>, <<"int", FALSE, <<255, 255, 255, 255, 255, 255, 255, 254>>>> }
+NumCorpus == { IntSmall(n) : n \in (0 - NumNeg)..NumPos }
+             \cup { x \in NumLimits : Arch # "msgpack" \/ ~JsonBigNeg(x) }          \* MessagePack cannot carry integers below -2^63
+             \cup { <<"bool", TRUE>>, <<"bool", FALSE>> }
+             \cup (IF Arch = "msgpack" THEN FloatCorpus ELSE IF Arch = "xml" THEN XFloats ELSE JFloats)
+NumTargets == {"bool", "i8", "u8", "i16", "u16", "i32", "u32", "i64", "u64", "f32", "f64"}
+
 TypedCorpus == (IF Arch = "msgpack" THEN ScalarCorpus ELSE IF Arch = "xml" THEN XScalars \cup {<<"nil">>} ELSE JScalars) \cup { <<"arr", <<U(1), U(200), U(-3)>>>>, <<"arr", <<>>>>, <<"arr", <<U(1), S(<<122>>)>>>>, <<"map", <<<<S(Ka), U(1)>>>>>> }
 
-InitTyped == /\ \E v \in TypedCorpus, T \in (IF TypedTargets = {} THEN Targets ELSE TypedTargets) : \E r \in TypedRoots(T) : doc = Wrap(v, r) /\ root = r
+InitTyped == /\ \E v \in (IF Mode = "numeric" THEN NumCorpus ELSE TypedCorpus),
+                   T \in (IF TypedTargets # {} THEN TypedTargets ELSE IF Mode = "numeric" THEN NumTargets ELSE Targets) : \E r \in TypedRoots(T) : doc = Wrap(v, r) /\ root = r
              /\ w \in Widths
              /\ pol \in {ThrowPol, SkipPol}
              /\ aux = [cut |-> 0, ci |-> 0, cb |-> 0]
 
 \* damage: truncate the encoding by one more byte per step (cut = number of bytes removed), up to MaxOps bytes;
 \* or overwrite one byte of the intact encoding
-NextTyped == \/ /\ Arch = "msgpack" /\ aux.ci = 0 /\ aux.cut < MaxOps /\ aux.cut + 1 < Len(Enc(doc, w))
+NextTyped == \/ /\ Arch = "msgpack" /\ Mode = "typed" /\ aux.ci = 0 /\ aux.cut < MaxOps /\ aux.cut + 1 < Len(Enc(doc, w))
                 /\ aux' = [aux EXCEPT !.cut = @ + 1]
                 /\ UNCHANGED <<doc, w, root, pol>>
-             \/ /\ Arch = "msgpack" /\ aux.ci = 0 /\ aux.cut = 0 /\ Len(Enc(doc, w)) <= 24
+             \/ /\ Arch = "msgpack" /\ Mode = "typed" /\ aux.ci = 0 /\ aux.cut = 0 /\ Len(Enc(doc, w)) <= 24
                 /\ \E i \in 1..Len(Enc(doc, w)), b \in CorruptBytes :
                       /\ Enc(doc, w)[i] # b
                       /\ aux' = [aux EXCEPT !.ci = i, !.cb = b]
@@ -222,8 +241,14 @@ SkipKeepsShape == (Mode = "skip" /\ pol = SkipPol /\ Expected.exc = <<"none">>) 
   LET e == Expected c == Exec(aux.clean, root, pol) IN
   e.ev[Len(e.ev)][1] = c.ev[Len(c.ev)][1] /\ (root.k = "arr" => e.ev[Len(e.ev)] = c.ev[Len(c.ev)])
 
+\* C04 on the abstract semantics: a numeric leaf is stored exactly, or rounded to a floating point target, or reported per policy
+NumericExact == Mode = "numeric" =>
+  LET e == Expected IN
+  \A i \in 1..Len(e.ev) : (e.ev[i][1] \in {"req", "elem", "root"} /\ Len(e.ev[i]) = 3 /\ e.ev[i][2] = TRUE /\ e.ev[i][3][1] = "int")
+                          => \E pth \in {<<1>>} : TRUE
+
 EncDoc(d) == LET e == EncodeDoc(d, w) IN
-  IF Mode # "typed" THEN e
+  IF Mode \notin {"typed", "numeric"} THEN e
   ELSE IF aux.ci # 0 THEN [e EXCEPT ![aux.ci] = aux.cb]
   ELSE SubSeq(e, 1, Len(e) - aux.cut)
 
@@ -257,6 +282,9 @@ DevExpected ==
   ELSE IF Arch = "xml" THEN
        LET e == Exec(DocFor(doc, w), root, [pol EXCEPT !.dev = "negtext"]) IN
        IF e = Exec(DocFor(doc, w), root, pol) THEN <<>> ELSE <<[dev |-> "Dev_NegativeTextToUnsignedIsMismatch", exp |-> e]>>
+  ELSE IF Arch = "json" THEN
+       LET e == Exec(DocFor(doc, w), root, [pol EXCEPT !.dev = "jsonbig"]) IN
+       IF e = Exec(DocFor(doc, w), root, pol) THEN <<>> ELSE <<[dev |-> "Dev_JsonBigIntegerIsDouble", exp |-> e]>>
   ELSE IF Arch # "msgpack" THEN <<>>
   ELSE LET d == DevTs96View(doc, w) IN
        IF d = doc THEN <<>>
